@@ -236,6 +236,7 @@ struct SimConfig
   bool reuse = false; // regions of destroyed sandboxes are handed to later creates (same addresses come back)
   bool deny_in_place = false; // impl_deny_access succeeds and hands back the in-sandbox pointer (as noop does)
   int subpage_slot = 0; // regions smaller than a page: which size-aligned slot of the page they occupy
+  bool total_as_mask = false; // impl_get_total_memory reports size-1 (the convention of the test suite's own backend)
 };
 
 template<typename S>
@@ -616,7 +617,7 @@ protected:
         return false;
     return true;
   }
-  inline size_t impl_get_total_memory() { return mem.size; }
+  inline size_t impl_get_total_memory() { return cfg.total_as_mask ? mem.size - 1 : mem.size; }
   inline void* impl_get_memory_location() { return mem.base; }
 
   int find_sym(const char* name)
